@@ -14,6 +14,7 @@ import gffutils
 import argparse
 from traceback import print_exc
 import gzip
+import tempfile
 
 logger = logging.getLogger('IsoQuant')
 
@@ -320,6 +321,16 @@ def check_gff3_duplicates(handle):
     return gtf_correct, None, None, complete_genedb
 
 
+def dump_json_atomically(obj, file_name):
+    # the per-user cache files are shared by all IsoQuant runs of this user: other runs may read them at any moment,
+    # so a file is never rewritten in place (open(..., 'w') truncates it first); write a private copy and publish it at once
+    fd, tmp_file_name = tempfile.mkstemp(dir=os.path.dirname(file_name) or ".",
+                                         prefix=os.path.basename(file_name) + ".", suffix=".tmp")
+    with os.fdopen(fd, 'w') as f_out:
+        json.dump(obj, f_out)
+    os.replace(tmp_file_name, file_name)
+
+
 def find_converted_db(converted_gtfs, gtf_filename, complete_genedb):
     gtf_mtime = converted_gtfs.get(gtf_filename, {}).get('gtf_mtime')
     db_mtime = converted_gtfs.get(gtf_filename, {}).get('db_mtime')
@@ -366,8 +377,7 @@ def convert_db(gtf_filename, genedb_filename, convert_fn, args):
         'db_mtime': os.path.getmtime(genedb_filename),
         'complete_db': args.complete_genedb
     }
-    with open(args.db_config_path, 'w') as f_out:
-        json.dump(converted_gtfs, f_out)
+    dump_json_atomically(converted_gtfs, args.db_config_path)
     return gtf_filename, genedb_filename
 
 
